@@ -231,9 +231,22 @@ def graph_replay(ctx, pool, jobs, name, dot, fixed, unsafe, comps, budget_s):
     rjobs.sort(key=lambda j: not j.get("risky"))
     ctx.log(f"{name}: {stats['states']} states, {stats['transitions']} transitions, {len(rjobs)} jobs "
             f"(graph loaded in {time.time() - t0:.1f}s)")
-    sent, it = pool.run(rjobs, states, unsafe, comps)
-    done = collect(ctx, pool, it, len(sent), budget_s, name)
-    stats.update(done, name=name, jobs=len(rjobs))
+    # behaviours that start where a symbolic link is in the work tree are never cut short (every escape
+    # found so far starts there); the rest is time-boxed
+    risky = [j for j in rjobs if j.get("risky")]
+    other = [j for j in rjobs if not j.get("risky")]
+    done = None
+    for part, jobs_part, budget in (("risky", risky, max(budget_s, ctx.pick(150, 600))), ("other", other, budget_s)):
+        if not jobs_part:
+            continue
+        sent, it = pool.run(jobs_part, states, unsafe, comps)
+        d = collect(ctx, pool, it, len(sent), budget, f"{name}/{part}" if risky and other else name)
+        if done is None:
+            done = d
+        else:
+            for k, v in d.items():
+                done[k] = (done.get(k, 0) + v) if isinstance(v, (int, float)) and not isinstance(v, bool) else (done.get(k) or v)
+    stats.update(done or {}, name=name, jobs=len(rjobs), risky_jobs=len(risky))
     ctx.cov.setdefault("graph_replay", []).append(stats)
     if not fixed:
         r2 = jobs.get(("mc", name))
